@@ -602,9 +602,10 @@ def build_graph(cfg):
     for (y, x) in cfg.get("holes", []): m[y, x] = True
     mask = aa.Mask2D(mask=m, pixel_scales=1.0)
     dv = np.array(cfg["data"], dtype=float).reshape(H, W)
-    data = aa.Array2D(values=dv, mask=mask)
+    sn = bool(cfg.get("native", False))
+    data = aa.Array2D(values=dv, mask=mask, store_native=sn)
     nv = np.array(cfg["noise"], dtype=float).reshape(H, W)
-    noise = aa.Array2D(values=nv, mask=mask)
+    noise = aa.Array2D(values=nv, mask=mask, store_native=sn)
     pv = np.array(cfg.get("psf", PSF), dtype=float)
     psf = aa.Kernel2D.no_mask(values=pv, pixel_scales=1.0)
     osd = aa.OverSamplingDataset(uniform=aa.OverSamplingUniform(sub_size=1), pixelization=aa.OverSamplingUniform(sub_size=cfg.get("sub", 1)))
@@ -1108,6 +1109,7 @@ def gen_inputs(tier, rng):
         cfg = {"shape": [H, W], "holes": [], "data": [rng.randint(0, 20) for _ in range(H * W)], "noise": [rng.choice([1, 2, 4]) for _ in range(H * W)]}
         if rng.random() < 0.4: cfg["border0"] = True
         else: cfg["border"] = rng.choice([1, 2, 2])
+        cfg["native"] = rng.random() < 0.4
         derivs = []
         for _ in range(rng.randint(1, 2)):
             how = rng.choice(["trim", "over_sampling", "mask", "noise_scaling"])
